@@ -286,6 +286,11 @@ func (f *fragmentList) build(in *layers.IPv4) (*layers.IPv4, error) {
 	debug.Printf("defrag: building the datagram \n")
 	for e := f.List.Front(); e != nil; e = e.Next() {
 		frag, _ := e.Value.(*layers.IPv4)
+		if len(frag.Payload) != int(frag.Length)-int(frag.IHL)*4 {
+			// truncated capture (or handcrafted): the bytes at hand
+			// are not the ones the header announces
+			return nil, errors.New("defrag: building - fragment payload does not match its length")
+		}
 		if frag.FragOffset*8 == currentOffset {
 			debug.Printf("defrag: building - adding %d\n", frag.FragOffset*8)
 			final = append(final, frag.Payload...)
